@@ -184,7 +184,7 @@ func C01real(r *ev.Report) {
 	pts := Points()
 	reps := Reps(nLam)
 
-	r.Rule("real curve: Multiply for every (point alphabet x scalings) x scalar alphabet K (0..small, n-1-j, all 2^i, 2^i+-1, n-1-2^i, around n/2 and 2^255, limb products); oracle = sum of precomputed 2^i P in the affine math/big model; plus every window digit (widths 4..8, every value, every position, adjacent digits around the signed-recoding threshold) on G and H; plus Multiply(k) against the literal k-fold Add chain on the implementation for k <= chain bound; nil scalar; non-trivial = k >= 2^64")
+	r.Rule("real curve: Multiply for every (point alphabet x scalings) x scalar alphabet K (0..small, n-1-j, all 2^i, 2^i+-1, n-1-2^i, around n/2 and 2^255, limb products); oracle = sum of precomputed 2^i P in the affine math/big model; plus every window digit (widths 4..8, every value, every position, adjacent digits around the signed-recoding threshold) and the endomorphism-degenerate scalars +-d*b/2^i, b in {lambda, lambda^2, 1-lambda, 1-lambda^2}, on G and H; plus Multiply(k) against the literal k-fold Add chain on the implementation for k <= chain bound; nil scalar; non-trivial = k >= 2^64")
 	r.Bound("scalars", len(ks))
 	r.Bound("representations", len(reps))
 	r.Bound("chain_bound", chain)
@@ -284,6 +284,17 @@ func C01real(r *ev.Report) {
 	// window digits: every digit value at every position a windowed, comb or table-driven multiplication could
 	// single out (a wrong table entry is wrong for exactly one (digit, position)), on G in two scalings and on H
 	ws := alpha.WindowScalars()
+
+	// endomorphism-degenerate scalars (see alpha.EndoScalars): where unified / Jacobian additions inside a
+	// multiplication meet a pair with opposite y and different x
+	endo := alpha.EndoScalars(31, 5)
+	if ev.Thorough() {
+		endo = alpha.EndoScalars(255, 8)
+	}
+
+	r.Bound("endomorphism_degenerate_scalars", len(endo))
+	ws = append(ws, endo...)
+
 	lams := Lambdas()
 	wreps := []Rep{{ref.G(), big.NewInt(1)}, {ref.G(), lams[len(lams)/2]}, {HPoint(), big.NewInt(1)}}
 	wtabs := []*mulTable{newMulTable(ref.G()), nil, newMulTable(HPoint())}
